@@ -206,7 +206,11 @@ def one(rng, tier):
     prealloc = rng.choice([0, 0, 1, 64, 1024, 1024, rng.randrange(0, 3000)])
     toks, sim = gen_ops(rng, tier, prealloc, isz, malformed)
     M = choose_limit(rng, sim, prealloc)
-    if malformed and rng.random() < 0.5 and prealloc > 0:
+    if malformed and rng.random() < 0.12:
+        # reservation larger than isize::MAX: the charge may pass, try_reserve_exact cannot
+        prealloc = rng.choice([ISIZE_MAX + 1, USIZE_MAX, ISIZE_MAX + 12345])
+        M = rng.choice([USIZE_MAX, USIZE_MAX, ISIZE_MAX, prealloc])
+    elif malformed and rng.random() < 0.5 and prealloc > 0:
         M = rng.randrange(0, prealloc)  # F5
     elif M < prealloc and rng.random() < 0.7:
         M = prealloc  # keep most cases inside the theorem's hypothesis
